@@ -100,7 +100,9 @@ class ModelResultsHandler:
             agg_df = reduce(lambda x, y: pd.merge(x, y, how="inner", on=merge_on), self.estimates[agg])
             self.final_results[VALID_AGGREGATES_MAPPING.get(agg)] = agg_df
         if self.include_unit_data:
-            merge_on = ["postal_code", "reporting", "geographic_unit_fips"]
+            # unit_category is the same for every estimand: joining on it keeps one column
+            # (instead of unit_category_x / unit_category_y as soon as a second estimand is requested)
+            merge_on = ["postal_code", "reporting", "geographic_unit_fips", "unit_category"]
             # joins together unit data dfs (for different estimands)
             self.final_results["unit_data"] = reduce(
                 lambda x, y: pd.merge(x, y, how="inner", on=merge_on), self.unit_data.values()
